@@ -19,7 +19,7 @@ def build(repo, findings):
     fr.default_label = 'C02 spawn-result-wraps'
     u.add(fr)
     fn = 'invoke_shell_function_tail'
-    f = cm.slice('invoke_shell_function', r'^\s*context\.shell\.enter_function\(', r'^\s*Ok\(result\.into\(\)\)$',
+    f = cm.slice('invoke_shell_function', r'^\s*context\.shell\.enter_function\(', None,
                  "fn invoke_shell_function_tail(function: functions::Registration, mut context: ExecutionContext<'_>, positional_args: PosArgs, body: &ast::CompoundCommand) -> Result<ExecutionSpawnResult, error::Error>", fn)
     f.r1().r3()
     f.resub(r'\berror::unimp\(', 'error_fns::unimp(', 'R4', 'path of the error helper (module stub is split in two in the generated file)', count=None)
